@@ -95,7 +95,7 @@ def run(ck):
         seen = {}
         sws = T.switches_on_discr_of(cm, lambda pl: pl["l"] == 1 and not pl["p"])
         for path in T.enumerate_paths(cm) or []:
-            variant = None
+            possible = set(inv)
             fallback = False
             ret = None
             for bb, edge in path:
@@ -104,20 +104,20 @@ def run(ck):
                         ret = st["rv"].get("variant")
                 if edge is not None and bb in sws:
                     tgt, lab = edge
+                    listed = {v for v, _ in cm.blocks[bb]["term"]["targets"]}
                     if isinstance(lab, tuple):
-                        variant = inv.get(lab[1])
+                        possible &= {lab[1]}
                     else:
-                        listed = {v for v, _ in cm.blocks[bb]["term"]["targets"]}
-                        rest = set(inv) - listed
-                        variant = inv[rest.pop()] if len(rest) == 1 else None
+                        possible -= listed
                 elif edge is not None and cm.blocks[bb]["term"]["t"] == "switch":
                     e, tr, fa = cm.bool_edges(bb)
                     if e[0] == "place" and e[2]["l"] == 2 and edge[0] in fa:
                         fallback = True
             if fallback:
                 seen.setdefault("<no-modes>", set()).add(ret)
-            elif variant:
-                seen.setdefault(variant, set()).add(ret)
+            else:
+                for v in possible:
+                    seen.setdefault(inv[v], set()).add(ret)
         for m, w in want.items():
             ck.verdict(seen.get(m) == {w}, "3", "T9-layout", cm, "Mode::%s->PollMode::%s" % (m, w), "Mode::%s is translated to PollMode::%s" % (m, w), "Mode::%s is translated to %s (a level-triggered source would be reported once, an edge-triggered one on every poll, ...)" % (m, sorted(seen.get(m, []))), site=cm.where())
         ck.verdict(seen.get("<no-modes>", {"Oneshot"}) == {"Oneshot"}, "3", "T9-layout", cm, "no-mode-support->Oneshot", "without poller mode support everything is Oneshot (level is emulated)", "the fallback without mode support is not Oneshot", site=cm.where())
